@@ -15,3 +15,7 @@ pub mod lexical;
 
 // 转换 //
 pub mod conversion;
+
+// 验证用钩子（默认关闭） //
+#[cfg(feature = "verif_hooks")]
+pub mod verif_hooks;
